@@ -29,6 +29,7 @@ def run(chk, tier):
     chk.guarded(r_mdf_lanes, P, tier)
     chk.guarded(r_ordinal_box, P, tier)
     chk.guarded(r_cycle, P, tier)
+    chk.guarded(r_num_days_in_month, P)
     chk.assume("the branchy arithmetic that combines the verified tables (from_isoywd_opt spill, cycle_to_yo, succ/pred rollover) "
                "is not decided here")
     return {
@@ -549,3 +550,26 @@ def r_ordinal_box(chk, P, tier):
             subs = [x for x in walk_terms(val) if x[0] == "bin" and x[1].startswith("Sub") and const_of(x[2]) == 1]
             ok = bool(subs)
     chk.expect(ok, "year_ce", "Datelike::year_ce does not return (false, 1 - year) for years before 1: %s" % seen, loc=P.loc(fn2))
+
+
+def r_num_days_in_month(chk, P):
+    """the provided Datelike::num_days_in_month asks Month::num_days for the month() and the proleptic year() of the same value (year_ce() would
+    turn year 0 / negative years into their BCE count and change the leap rule)"""
+    from rules import find_calls, is_call
+    chk.rule("READS.num_days_in_month", "Datelike::num_days_in_month passes month() and year() of self to Month::num_days on every path", floor=1)
+    fn = "traits::Datelike::num_days_in_month"
+    rets = [p_.ret for p_ in Sym(P, fn).paths() if p_.end[0] == "return"]
+    n = 0
+    for r in rets:
+        nd = [c for c in find_calls(r) if c[1].endswith("Month::num_days")]
+        if not nd:
+            continue
+        for c in nd:
+            n += 1
+            m_calls = {x[1].split("::")[-1] for x in find_calls(c[2][0])}
+            y = c[2][1]
+            ok = is_call(y) and y[1].endswith("Datelike::year") and "month" in m_calls and pp(y[2][0]) in ("&*arg1", "arg1")
+            chk.expect(ok, "num_days args", "num_days_in_month calls Month::num_days(%s, %s); expected (month of self, self.year())" % (pp(c[2][0])[:120], pp(y)[:120]), loc=P.loc(fn))
+    if not n:
+        from core import AnchorLost
+        raise AnchorLost(fn + ": no Month::num_days call in the returned value")
